@@ -341,9 +341,60 @@ func ruleGRDadmit(w *World, r *Report) {
 }
 
 // usesParam: value v is (a conversion of) parameter named name, or len() of something compared to it.
+// paramFieldRead: v reads field `name` of a struct-typed parameter of its function (`p.k` where the arguments travel in
+// a parameter record `p fusionParams`): the field plays the part of the parameter of that name.
+func paramFieldRead(v ssa.Value, name string) bool {
+	var base ssa.Value
+	switch x := v.(type) {
+	case *ssa.Field:
+		if _, f := structFieldName(x.X.Type(), x.Field); f != name {
+			return false
+		}
+		base = x.X
+	case *ssa.UnOp:
+		fa, ok := x.X.(*ssa.FieldAddr)
+		if !ok || x.Op != token.MUL {
+			return false
+		}
+		if _, f := structFieldName(fa.X.Type(), fa.Field); f != name {
+			return false
+		}
+		base = fa.X
+	default:
+		return false
+	}
+	return paramRecordBase(base) != nil
+}
+
+// paramRecordBase: base is a struct-typed (or pointer-to-struct) parameter, or the local cell such a parameter was
+// spilled to (its address is taken as soon as a field is assigned or a closure captures it).
+func paramRecordBase(base ssa.Value) *ssa.Parameter {
+	if fv, ok := base.(*ssa.FreeVar); ok {
+		base = freeVarBinding(fv)
+	}
+	switch b := base.(type) {
+	case *ssa.Parameter:
+		return b
+	case *ssa.UnOp:
+		if b.Op == token.MUL {
+			return paramRecordBase(b.X)
+		}
+	case *ssa.Alloc:
+		for _, st := range cellStores(b) {
+			if p, ok := st.Val.(*ssa.Parameter); ok {
+				return p
+			}
+		}
+	}
+	return nil
+}
+
 func mentionsParam(v ssa.Value, name string, depth int) bool {
 	if depth > 4 || v == nil {
 		return false
+	}
+	if paramFieldRead(v, name) {
+		return true
 	}
 	switch x := v.(type) {
 	case *ssa.Parameter:
@@ -381,56 +432,93 @@ func ruleGRDcap(w *World, r *Report) {
 			r.Und("GRD-cap", "anchor:"+s.fn, "", "anchor lost")
 			continue
 		}
-		fn := w.SSAFunc(fi.Obj)
-		capCmp := func(in ssa.Instruction) bool {
-			bo, ok := in.(*ssa.BinOp)
-			if !ok {
-				return false
+		top := w.SSAFunc(fi.Obj)
+		var uncapped func(fn *ssa.Function, param string, depth int) (bool, []ssa.Instruction)
+		uncapped = func(fn *ssa.Function, param string, depth int) (bool, []ssa.Instruction) {
+			capCmp := func(in ssa.Instruction) bool {
+				bo, ok := in.(*ssa.BinOp)
+				if !ok {
+					return false
+				}
+				switch bo.Op {
+				case token.GTR, token.GEQ, token.LSS, token.LEQ:
+				default:
+					return false
+				}
+				if !(mentionsParam(bo.X, param, 0) || mentionsParam(bo.Y, param, 0)) {
+					return false
+				}
+				// a comparison of a COUNT with the parameter — `k <= 0` (the guard against a negative k) compares it with a
+				// constant and caps nothing
+				if _, isConst := stripConv(bo.X).(*ssa.Const); isConst {
+					return false
+				}
+				if _, isConst := stripConv(bo.Y).(*ssa.Const); isConst {
+					return false
+				}
+				_, isIf := firstIf(bo)
+				return isIf
 			}
-			switch bo.Op {
-			case token.GTR, token.GEQ, token.LSS, token.LEQ:
-			default:
-				return false
-			}
-			if !(mentionsParam(bo.X, s.param, 0) || mentionsParam(bo.Y, s.param, 0)) {
-				return false
-			}
-			// a comparison of a COUNT with the parameter — `k <= 0` (the guard against a negative k) compares it with a
-			// constant and caps nothing
-			if _, isConst := stripConv(bo.X).(*ssa.Const); isConst {
-				return false
-			}
-			if _, isConst := stripConv(bo.Y).(*ssa.Const); isConst {
-				return false
-			}
-			_, isIf := firstIf(bo)
-			return isIf
-		}
-		nonEmptyReturn := func(in ssa.Instruction) bool {
-			rt, ok := in.(*ssa.Return)
-			if !ok || len(rt.Results) == 0 {
-				return false
-			}
-			v := retVal(rt, 0)
-			if isNilConst(v) {
-				return false
-			}
-			// literal empty slice `[]T{}`: Slice of a zero-length array alloc
-			if sl, ok := v.(*ssa.Slice); ok {
-				if al, ok := sl.X.(*ssa.Alloc); ok {
-					if pt, ok := al.Type().Underlying().(*types.Pointer); ok {
-						if at, ok := pt.Elem().Underlying().(*types.Array); ok && at.Len() == 0 {
-							return false
+			nonEmptyReturn := func(in ssa.Instruction) bool {
+				rt, ok := in.(*ssa.Return)
+				if !ok || len(rt.Results) == 0 {
+					return false
+				}
+				v := retVal(rt, 0)
+				if isNilConst(v) {
+					return false
+				}
+				// literal empty slice `[]T{}`: Slice of a zero-length array alloc
+				if sl, ok := v.(*ssa.Slice); ok {
+					if al, ok := sl.X.(*ssa.Alloc); ok {
+						if pt, ok := al.Type().Underlying().(*types.Pointer); ok {
+							if at, ok := pt.Elem().Underlying().(*types.Array); ok && at.Len() == 0 {
+								return false
+							}
 						}
 					}
 				}
+				// the final phase (translate, sort, cut) is a function of its own that is handed the limit: the cut is decided there
+				if ex, ok := v.(*ssa.Extract); ok {
+					v = ex.Tuple
+				}
+				if c, ok := v.(*ssa.Call); ok && depth < 2 {
+					if h := c.Call.StaticCallee(); h != nil && inModule(h) && len(h.Blocks) > 0 {
+						for i, a := range c.Call.Args {
+							if p := capturedParam(a); p != nil && p.Name() == param && i < len(h.Params) {
+								if bad, _ := uncapped(h, h.Params[i].Name(), depth+1); !bad {
+									return false
+								}
+							}
+						}
+					}
+				}
+				return true
 			}
-			return true
+			return (pathQuery{fn: fn, target: nonEmptyReturn, avoid: capCmp, blocked: zeroIterEdges(fn, capCmp)}).find(entryPos(fn))
 		}
-		found, wit := (pathQuery{fn: fn, target: nonEmptyReturn, avoid: capCmp, blocked: zeroIterEdges(fn, capCmp)}).find(entryPos(fn))
+		found, wit := uncapped(top, s.param, 0)
 		r.Cond(!found, "GRD-cap", shortName(fi.Obj)+":k-cap", w.Pos(fi.Decl.Pos()), "every non-empty result return passes a comparison with "+s.param,
 			shortName(fi.Obj)+" can return results on a path that never compares the result count with "+s.param+": more than "+s.param+" results may be returned", w.witness(wit)...)
 	}
+}
+
+// paramFedBy: the name of helper h's parameter that top feeds with its own parameter `name` at every call ("" if none).
+func paramFedBy(top, h *ssa.Function, name string) string {
+	out := ""
+	for _, cs := range callSitesOf(top, h) {
+		hit := ""
+		for i, a := range cs.Call.Args {
+			if p := capturedParam(a); p != nil && p.Parent() == top && p.Name() == name && i < len(h.Params) {
+				hit = h.Params[i].Name()
+			}
+		}
+		if hit == "" || (out != "" && out != hit) {
+			return ""
+		}
+		out = hit
+	}
+	return out
 }
 
 func ruleGRDorder(w *World, r *Report) {
@@ -442,9 +530,19 @@ func ruleGRDorder(w *World, r *Report) {
 			continue
 		}
 		fn := w.SSAFunc(fi.Obj)
-		sorts := findInstrs(fn, func(in ssa.Instruction) bool {
+		isSortCall := func(in ssa.Instruction) bool {
 			return isCallTo(in, "sort", "Slice") || isCallTo(in, "sort", "SliceStable")
-		})
+		}
+		sorts := findInstrs(fn, isSortCall)
+		rankFn, kName := fn, "k"
+		if len(sorts) == 0 { // the ranking phase (translate, sort, cut) may be a function of its own, handed the limit
+			for _, h := range w.extractedHelpers(fn) {
+				if hs := findInstrs(h, isSortCall); len(hs) > 0 && len(sorts) == 0 {
+					sorts, rankFn = hs, h
+					kName = paramFedBy(fn, h, "k")
+				}
+			}
+		}
 		if len(sorts) == 0 {
 			r.Bad("GRD-order", name+":sort", w.Pos(fi.Decl.Pos()), name+" no longer sorts its results by score")
 			continue
@@ -474,10 +572,10 @@ func ruleGRDorder(w *World, r *Report) {
 		if name == "Engine.searchWithFusion" {
 			trunc := func(in ssa.Instruction) bool {
 				sl, ok := in.(*ssa.Slice)
-				return ok && sl.High != nil && mentionsParam(sl.High, "k", 0)
+				return ok && sl.High != nil && kName != "" && mentionsParam(sl.High, kName, 0)
 			}
 			isSort := func(in ssa.Instruction) bool { return in == sorts[len(sorts)-1] }
-			found, wit := (pathQuery{fn: fn, target: trunc, avoid: isSort}).find(entryPos(fn))
+			found, wit := (pathQuery{fn: rankFn, target: trunc, avoid: isSort}).find(entryPos(rankFn))
 			r.Cond(!found, "GRD-order", name+":sort<truncate", w.Pos(fi.Decl.Pos()), "results are sorted before being cut to k", "results are cut to k before they are sorted: the k best are not the ones returned", w.witness(wit)...)
 			// the search goroutines run before the sort: they must not cut their candidate lists to k
 			for _, cf := range closuresOf(fn) {
@@ -546,7 +644,11 @@ func ruleGRDxlate(w *World, r *Report) {
 	fn := w.SSAFunc(fi.Obj)
 	// the translation inside a range-over-map loop (the fused map) — the finalisation
 	n := 0
-	for _, in := range findInstrs(fn, callsTo(gx)) {
+	var xl []ssa.Instruction
+	for _, f := range append([]*ssa.Function{fn}, w.extractedHelpers(fn)...) { // (the ranking phase may be a function of its own)
+		xl = append(xl, findInstrs(f, callsTo(gx))...)
+	}
+	for _, in := range xl {
 		c := in.(*ssa.Call)
 		// is the argument derived from a map iteration (Next)?
 		fromMapIter := false
@@ -585,7 +687,7 @@ func ruleGRDscope(w *World, r *Report) {
 		return
 	}
 	fn := w.SSAFunc(fi.Obj)
-	all := append([]*ssa.Function{fn}, closuresOf(fn)...)
+	all := append(append([]*ssa.Function{fn}, closuresOf(fn)...), w.extractedHelpers(fn)...)
 	nAnd, nOr := 0, 0
 	for _, f := range all {
 		for _, in := range findInstrs(f, func(in ssa.Instruction) bool { _, ok := in.(*ssa.Call); return ok }) {
@@ -628,15 +730,88 @@ func ruleGRDscope(w *World, r *Report) {
 		in   ssa.Instruction
 		al   *ssa.Alloc
 		what string
+		regs map[ssa.Value]bool // register form (the variable is not captured): the values the list may be
 	}
 	var starts []startPt
+	// The pre-filtering may be a function of its own that returns (allow-list, "nothing is allowed", error): inside it, a
+	// return that does not say "nothing is allowed" takes the place of the searches; and the caller must leave on that
+	// verdict before any search.
+	top := fn
+	var verdictIdx = -1
+	for _, h := range w.extractedHelpers(top) {
+		uses := false
+		for o := range srcObjs {
+			if len(findInstrs(h, callsTo(o))) > 0 {
+				uses = true
+			}
+		}
+		if !uses || len(findInstrs(top, callsTo(w.FuncObj("pkg/core", "DB.FindIDsByFilter")))) > 0 {
+			continue
+		}
+		res := h.Signature.Results()
+		for i := 0; i < res.Len(); i++ {
+			if b, ok := res.At(i).Type().Underlying().(*types.Basic); ok && b.Kind() == types.Bool {
+				verdictIdx = i
+			}
+		}
+		if verdictIdx < 0 {
+			continue
+		}
+		// caller side
+		for ci, cs := range callSitesOf(top, h) {
+			var verdict ssa.Value
+			for _, ref := range *cs.Referrers() {
+				if ex, ok := ref.(*ssa.Extract); ok && ex.Index == verdictIdx {
+					verdict = ex
+				}
+			}
+			okCaller := false
+			var wit []ssa.Instruction
+			if verdict != nil {
+				t, f := condEdges(verdict)
+				if len(t) > 0 && len(f) > 0 {
+					blockedT := map[edgeKey]bool{}
+					for _, e := range f {
+						blockedT[e] = true
+					}
+					// no search when the verdict is "nothing": block the false edges, start at the call
+					found1, w1 := (pathQuery{fn: top, target: search, blocked: mergeEdges(blockedT, failureEdges(top, cs))}).find(posOf(cs))
+					// and no way to a search round the test
+					isTest := func(in ssa.Instruction) bool {
+						iff, ok := in.(*ssa.If)
+						return ok && iff.Cond == verdict
+					}
+					found2, w2 := (pathQuery{fn: top, target: search, avoid: isTest, blocked: failureEdges(top, cs)}).find(posOf(cs))
+					okCaller = !found1 && !found2
+					wit = append(w1, w2...)
+				}
+			}
+			r.Cond(okCaller, "GRD-scope", fmt.Sprintf("searchWithFusion:leaves-on-the-nothing-allowed-verdict#%d", ci+1), w.Pos(cs.Pos()), "the caller returns before any search when its pre-filtering helper reports that nothing is allowed", "searchWithFusion goes on to the searches although "+shortFn(h)+" reported an empty allow-list: the search code reads an empty list as 'no filter', so ids outside the requested scope are returned", w.witness(wit)...)
+		}
+		fn = h
+		search = func(in ssa.Instruction) bool {
+			rt, ok := in.(*ssa.Return)
+			if !ok || len(rt.Results) <= verdictIdx {
+				return false
+			}
+			if c, ok := retVal(rt, verdictIdx).(*ssa.Const); ok && c.Value != nil && constant.BoolVal(c.Value) {
+				return false // "nothing is allowed"
+			}
+			n := len(rt.Results)
+			if isErrorType(rt.Results[n-1].Type()) && !isNilConst(retVal(rt, n-1)) {
+				return false // a refusal
+			}
+			return true
+		}
+		break
+	}
 	for _, b := range fn.Blocks {
 		for _, in := range b.Instrs {
 			switch x := in.(type) {
 			case *ssa.Store:
 				if al, ok := x.Addr.(*ssa.Alloc); ok {
 					if nm := resolverResult(x.Val); nm != "" {
-						starts = append(starts, startPt{in, al, nm})
+						starts = append(starts, startPt{in: in, al: al, what: nm})
 					}
 				}
 			case *ssa.Call:
@@ -644,8 +819,39 @@ func ruleGRDscope(w *World, r *Report) {
 					if nm := resolverResult(x.Call.Args[1]); nm != "" {
 						if ld, ok := x.Call.Args[0].(*ssa.UnOp); ok {
 							if al, ok := ld.X.(*ssa.Alloc); ok {
-								starts = append(starts, startPt{in, al, nm + "(And)"})
+								starts = append(starts, startPt{in: in, al: al, what: nm + "(And)"})
 							}
+						}
+					}
+				}
+			}
+		}
+	}
+	if len(starts) == 0 { // the allow-list is not captured where it is computed: it lives in registers
+		for _, b := range fn.Blocks {
+			for _, in := range b.Instrs {
+				switch x := in.(type) {
+				case *ssa.Extract:
+					if nm := resolverResult(x); nm != "" {
+						direct := false // used as the list itself (tested, returned, merged), not only as the argument of And
+						for _, ref := range *x.Referrers() {
+							if c, ok := ref.(*ssa.Call); ok && isMethodCall(c, "RoaringBitmap/roaring", "Bitmap.And") && len(c.Call.Args) == 2 && c.Call.Args[1] == ssa.Value(x) {
+								continue
+							}
+							direct = true
+						}
+						if direct {
+							starts = append(starts, startPt{in: in, what: nm, regs: map[ssa.Value]bool{x: true}})
+						}
+					}
+				case *ssa.Call:
+					if isMethodCall(x, "RoaringBitmap/roaring", "Bitmap.And") && len(x.Call.Args) == 2 {
+						if nm := resolverResult(x.Call.Args[1]); nm != "" {
+							regs := map[ssa.Value]bool{}
+							for _, l := range phiLeaves(x.Call.Args[0]) {
+								regs[l] = true
+							}
+							starts = append(starts, startPt{in: in, what: nm + "(And)", regs: regs})
 						}
 					}
 				}
@@ -666,6 +872,14 @@ func ruleGRDscope(w *World, r *Report) {
 	}
 	for i, st := range starts {
 		loadOf := func(v ssa.Value) bool {
+			if st.regs != nil {
+				for _, l := range phiLeaves(v) {
+					if st.regs[l] {
+						return true
+					}
+				}
+				return false
+			}
 			ld, ok := v.(*ssa.UnOp)
 			return ok && ld.Op == token.MUL && ld.X == ssa.Value(st.al)
 		}
